@@ -1,7 +1,7 @@
 from props import sched_common
 
 THEOREMS = ["Dispenso.Sched." + t for t in ['C08_accounting', 'C08_queue_bookkeeping', 'C08_quiescent_zero', 'C08_quiesce_event', 'C08_resize_end_settled']]
-# (flavour, scenarios in the quick tier): 0 mixed, 1 without resize, 2 resize-heavy, 3 overloaded pool + chains, 4 workers parked between submissions
+# (flavour, scenarios in the quick tier): 0 mixed, 1 without resize, 2 resize-heavy (incl. resize(0) held in join while a ring-routed bulk arrives), 3 overloaded pool + chains, 4 workers parked between submissions, 5 exception-heavy
 FLAVOURS = [(2, 160), (0, 120), (1, 40), (4, 80)]
 
 
